@@ -150,8 +150,8 @@ def manifest(g):
         if e.get('bare') and not e['phony']:
             # a statement without build-level bindings: its rule carries the command variant and the dyndep binding
             rule = "bare_%s" % key(e).replace("/", "_")
-            L.append("rule %s\n  command = cc $in -o $out # %s\n  description = CC $out\n%s" % (
-                rule, e['variant'], ("  dyndep = %s\n" % e['dd']) if e.get('dd') else ""))
+            L.append("rule %s\n  command = cc $in -o $out # %s\n  description = CC $out\n%s%s" % (
+                rule, e['variant'], ("  dyndep = %s\n" % e['dd']) if e.get('dd') else "", "  restat = 1\n" if e['restat'] else ""))
         line = "build %s" % " ".join(e['outs'])
         if e.get('iouts'):
             line += " | " + " ".join(e['iouts'])
@@ -225,8 +225,9 @@ def real_manifest(g, vtool):
         rule = 'phony' if e['phony'] else ('ccrsp' if e.get('rsp') is not None else 'cc')
         if e.get('bare') and not e['phony']:
             rule = "bare_%s" % key(e).replace("/", "_")
-            L.append("rule %s\n  command = $vt run --id %s --variant %s %s\n  description = CC $out\n%s" % (
-                rule, key(e), models.content_variant(e), real_args(g, e), ("  dyndep = %s\n" % e['dd']) if e.get('dd') else ""))
+            L.append("rule %s\n  command = $vt run --id %s --variant %s %s\n  description = CC $out\n%s%s" % (
+                rule, key(e), models.content_variant(e), real_args(g, e), ("  dyndep = %s\n" % e['dd']) if e.get('dd') else "",
+                "  restat = 1\n" if e['restat'] else ""))
         line = "build %s" % " ".join(e['outs'])
         if e.get('iouts'):
             line += " | " + " ".join(e['iouts'])
